@@ -189,3 +189,107 @@ Proof. intros HD. destruct (tie_consistency n weakly d u) as [r [st [Hrun Hres]]
   split; intros; try discriminate; reflexivity. Qed.
 
 End TieConsTop.
+
+(* ---- the key-based variant: consistency_indices ---- *)
+Section TieConsIdx.
+Variable n : nat.
+Notation W := (worlds n).
+Definition kzc (c:cond) : Z := Z.of_nat (ckey c).
+Variable D : list cond.
+Hypothesis Hnd : NoDup (map kzc D).
+Definition dict_of : dict Z cond := map (fun c => (kzc c, c)) D.
+
+Lemma dict_of_find c : In c D -> zdict_find dict_of (kzc c) = Some c.
+Proof. unfold dict_of. clear -Hnd. induction D as [|d D0 IH]; [intros []|]. simpl in Hnd. inversion Hnd as [|? ? Hni Hn']; subst.
+  intros [->|Hc]; simpl.
+  - rewrite Z.eqb_refl. reflexivity.
+  - destruct (kzc d =? kzc c)%Z eqn:E; [|auto]. apply Z.eqb_eq in E. exfalso. apply Hni. rewrite E. apply in_map. exact Hc. Qed.
+Lemma map_m_get Ls {R L} : (forall c, In c Ls -> In c D) ->
+  @map_m Z cond R L (fun v_i => cbind (zdict_get dict_of v_i) (fun t => Next t)) (map kzc Ls) = Next Ls.
+Proof. induction Ls as [|c Ls IH]; intros HL; [reflexivity|]. cbn [map map_m].
+  unfold zdict_get at 1. rewrite dict_of_find by (apply HL; left; reflexivity). cbn [cbind].
+  rewrite IH by (intros c' Hc'; apply HL; right; exact Hc'). reflexivity. Qed.
+
+(* the inner loop over keys *)
+Lemma inner_loop_idx Dc (s:solver) (F:Z -> Z * solver * list Z * list Z -> ctl (pyres (list (list Z)) * (list Z * Z * Z)) (Z * solver * list Z * list Z) (Z * solver * list Z * list Z)) :
+  (forall calls R C c, In c D -> F (kzc c) (calls, s, R, C)
+     = Next ((calls + 1)%Z, s, (if tolc n Dc c then R ++ [kzc c] else R), (if tolc n Dc c then C else C ++ [kzc c]))) ->
+  forall l calls R C, (forall c, In c l -> In c D) ->
+  @for_each Z _ (list (list Z) * Z * Z * list Z) _ (map kzc l) F (calls, s, R, C)
+  = Next ((calls + Z.of_nat (length l))%Z, s, R ++ map kzc (filter (tolc n Dc) l), C ++ map kzc (filter (fun c => negb (tolc n Dc c)) l)).
+Proof. intros HF. induction l as [|c l IH]; intros calls R C HL.
+  - simpl. rewrite Z.add_0_r, !app_nil_r. reflexivity.
+  - cbn [map for_each]. rewrite HF by (apply HL; left; reflexivity).
+    rewrite IH by (intros c' Hc'; apply HL; right; exact Hc'). cbn [filter length].
+    replace (calls + 1 + Z.of_nat (length l))%Z with (calls + Z.of_nat (S (length l)))%Z by lia.
+    destruct (tolc n Dc c); cbn [negb map]; rewrite <- ?app_assoc; reflexivity. Qed.
+
+Theorem tie_consistency_indices_loop weakly u :
+  exists stats, py_consistency_indices n (S (length D)) (Build_pybase dict_of) u weakly
+    = Return (res_of (option_map (map (map kzc)) (loop_c n weakly (length D) D)), stats).
+Proof.
+  unfold py_consistency_indices. cbn [bb_conditionals]. rewrite map_id.
+  match goal with |- context [while_true _ ?b _] => set (body := b) end.
+  assert (Ekeys: dict_keys dict_of = map kzc D) by (unfold dict_keys, dict_of; rewrite map_map; reflexivity).
+  rewrite Ekeys.
+  assert (H: forall f part lv calls Dcur, length Dcur <= f -> (forall c, In c Dcur -> In c D) -> exists stats,
+     @while_true _ unit _ (S f) body (part, lv, calls, map kzc Dcur)
+     = Return (match loop_c n weakly f Dcur with Some P => PVal (part ++ map (map kzc) P) | None => PFalse end, stats)).
+  { induction f as [|f IH]; intros part lv calls Dcur Hlen HL.
+    - destruct Dcur; [|simpl in Hlen; lia]. cbn. destruct weakly; rewrite ?app_nil_r; eexists; reflexivity.
+    - destruct Dcur as [|c0 D0].
+      { cbn. destruct weakly; rewrite ?app_nil_r; eexists; reflexivity. }
+      remember (c0::D0) as Dc eqn:EDc.
+      rewrite while_true_S. unfold body at 1. cbv beta iota zeta.
+      replace (py_len (map kzc Dc) =? 0)%Z with false by (subst; reflexivity). cbn [cbind].
+      rewrite (map_m_get Dc HL). cbn [cbind].
+      erewrite (inner_loop_idx Dc); [|..|exact HL].
+      2:{ intros calls' R' C' c' Hc'. cbv beta iota zeta. unfold zdict_get. rewrite dict_of_find by exact Hc'. cbn [cbind].
+          rewrite (tolerance_test n Dc) by apply round_solver_holds.
+          destruct (tolc n Dc c'); reflexivity. }
+      cbn [cbind app]. fold (Rc n Dc). fold (Cc n Dc).
+      rewrite loop_c_S by (subst; discriminate).
+      assert (Hsolve: s_solve n (fold_left (fun (v_s : solver) (v_k : form) => s_add v_s v_k) (py_toImplicit n Dc) (s_push new_solver))
+                      = existsb (nofals world (map ac Dc)) W).
+      { apply s_solve_ext. intros w. apply round_solver_holds. }
+      rewrite Hsolve.
+      destruct (Rc n Dc) as [|r R0] eqn:ER; cbn [is_nil map].
+      + destruct weakly; [|cbn [cbind]; eexists; reflexivity].
+        destruct (existsb (nofals world (map ac Dc)) W); cbn [negb cbind]; eexists; reflexivity.
+      + cbn [cbind]. rewrite <- ER.
+        assert (Hl: length (Cc n Dc) <= f).
+        { pose proof (filter_split_len (tolc n Dc) Dc) as Hs. fold (Rc n Dc) in Hs. fold (Cc n Dc) in Hs.
+          rewrite ER in Hs. simpl in Hs. lia. }
+        assert (HLC: forall c, In c (Cc n Dc) -> In c D) by (intros c Hc; apply HL; apply filter_In in Hc; tauto).
+        change (kzc r :: map kzc R0) with (map kzc (r :: R0)). rewrite <- ER.
+        destruct (IH (part ++ [map kzc (Rc n Dc)]) (lv + 1)%Z (calls + Z.of_nat (length Dc))%Z (Cc n Dc) Hl HLC) as [st Hst].
+        rewrite Hst. exists st. destruct (loop_c n weakly f (Cc n Dc)); [|reflexivity].
+        cbn [map]. rewrite <- app_assoc. reflexivity. }
+  destruct (H (length D) [] 0%Z 0%Z D (le_n _) (fun c Hc => Hc)) as [st Hst].
+  cbv zeta. rewrite Hst. exists st. cbn [cbind]. destruct (loop_c n weakly (length D) D); reflexivity.
+Qed.
+
+(* consistency_indices(): the key lists of the model's partition *)
+Theorem tie_consistency_indices weakly u : exists r stats,
+  py_consistency_indices n (S (length D)) (Build_pybase dict_of) u weakly = Return (r, stats) /\
+  r = res_of (option_map (map (map (fun a => Z.of_nat (key world a)))) (Model.consistency n weakly D)).
+Proof. destruct (tie_consistency_indices_loop weakly u) as [st H]. eexists. exists st. split; [exact H|].
+  pose proof (loop_c_model n weakly (length D) D) as E.
+  assert (E': consistency n weakly D = (if weakly then tol_loop_ext world W (length D) (map ac D) else tol_loop world W (length D) (map ac D)))
+    by (destruct weakly; reflexivity).
+  rewrite E', <- E. destruct (loop_c n weakly (length D) D); cbn [option_map res_of]; [|reflexivity].
+  f_equal. rewrite map_map. apply map_ext. intros L. rewrite map_map. reflexivity. Qed.
+End TieConsIdx.
+
+(* the two generated variants agree: the key-based one returns the keys of what the object-based one returns *)
+Corollary src_variants_agree n D weakly u : NoDup (map kzc D) -> exists r1 st1 r2 st2,
+  py_consistency n (S (length D)) (Build_pybase (dict_of D)) u weakly = Return (r1, st1) /\
+  py_consistency_indices n (S (length D)) (Build_pybase (dict_of D)) u weakly = Return (r2, st2) /\
+  pres_map (map (map kzc)) r1 = r2.
+Proof. intros Hnd.
+  assert (El: length (dict_of D) = length D) by (unfold dict_of; apply map_length).
+  assert (Ev: dict_values (dict_of D) = D) by (unfold dict_values, dict_of; rewrite map_map; apply map_id).
+  destruct (tie_consistency_loop n weakly (dict_of D) u) as [st1 H1]. rewrite El, Ev in H1.
+  destruct (tie_consistency_indices_loop n D Hnd weakly u) as [st2 H2].
+  eexists. exists st1. eexists. exists st2. split; [exact H1|]. split; [exact H2|].
+  destruct (loop_c n weakly (length D) D); reflexivity. Qed.
